@@ -1,14 +1,14 @@
 """C05 — scoped constructs restore scope, capture and escape state on every path (DESIGN.md §3 C05)."""
-import json, collections
+import json, collections, re
 
 READY = True
 
 META = {
     "technique": "Lean 4 proof of a certificate checker for push/pop balance of instruction streams + translation validation: the verified checker runs on every real instruction stream (repo fixtures, exhaustive enumeration of nestings with break/continue/recursion) + reference-interpreter and depth-counter oracle on the real engine",
     "category": "proof",
-    "text": "Kernel-checked theorem checkCert_sound: if the verified checker accepts a certificate for an instruction stream, then from every region entry (pc 0, every macro body) EVERY reachable state of the abstract VM (all branches of conditional jumps and Iterate, any iteration count, any depth of loop(...) recursion) never pops a frame / capture / auto-escape entry the region did not push nor a frame of the wrong kind, and every exit (end of stream, Return) carries exactly the entry depths; corollary: frames, capture depth and auto-escape depth at a pc are path independent (text after a construct goes to the same output target whichever path was taken). The check compiles the repository's templates and an exhaustive enumeration of nestings of for/for-else/filtered for/recursive for/with/set-block/filter/autoescape/if/macro/call/block (+ completed sibling constructs) with break/continue/loop()/empty bodies at the innermost position with the REAL compiler, and runs the verified checker on every stream (main, blocks, macro bodies). nested_restores: in the model MJ/Model/Nested.lean of with_execution_state / eval_macro (Macro::call, State::call_macro) / call_block (State::render_block) / perform_super / perform_include, frames, recursion depth, instructions, auto-escape mode, current block, block table and loaded templates after the wrapper equal those before it on the Ok AND on the Err outcome of the nested evaluation (the caller's Output is untouched by macro calls and render_block, which write into their own Output). Dynamic oracle: every shape is rendered on the real engine in contexts taking different branches and compared with an independent reference interpreter (sentinel text + auto-escape probe + scope probe after every construct), and feature-guarded counters compare frame depth, capture depth, auto-escape mode and auto-escape stack at entry and normal exit of every eval_impl activation.",
+    "text": "Kernel-checked theorems compile_has_cert and compiled_code_balanced: the model of the code generator (all scoped statement kinds, break/continue with the scope clean-up of fix 778ebf9, recursive loops, macros, call blocks, imports, arbitrary nesting) only produces instruction streams with an accepted certificate, so every run of the abstract VM on them is balanced; the model generator's output is compared with the real compiler's stream for every enumerated shape. Kernel-checked theorem checkCert_sound: if the verified checker accepts a certificate for an instruction stream, then from every region entry (pc 0, every macro body) EVERY reachable state of the abstract VM (all branches of conditional jumps and Iterate, any iteration count, any depth of loop(...) recursion) never pops a frame / capture / auto-escape entry the region did not push nor a frame of the wrong kind, and every exit (end of stream, Return) carries exactly the entry depths; corollary: frames, capture depth and auto-escape depth at a pc are path independent (text after a construct goes to the same output target whichever path was taken). The check compiles the repository's templates and an exhaustive enumeration of nestings of for/for-else/filtered for/recursive for/with/set-block/filter/autoescape/if/macro/call/block (+ completed sibling constructs) with break/continue/loop()/empty bodies at the innermost position with the REAL compiler, and runs the verified checker on every stream (main, blocks, macro bodies). nested_restores: in the model MJ/Model/Nested.lean of with_execution_state / eval_macro (Macro::call, State::call_macro) / call_block (State::render_block) / perform_super / perform_include, frames, recursion depth, instructions, auto-escape mode, current block, block table and loaded templates after the wrapper equal those before it on the Ok AND on the Err outcome of the nested evaluation (the caller's Output is untouched by macro calls and render_block, which write into their own Output). Dynamic oracle: every shape is rendered on the real engine in contexts taking different branches and compared with an independent reference interpreter (sentinel text + auto-escape probe + scope probe after every construct), and feature-guarded counters compare frame depth, capture depth, auto-escape mode and auto-escape stack at entry and normal exit of every eval_impl activation.",
     "design_ref": "DESIGN.md §3 C05, §2.3(c), §2.7",
-    "level_note": "Proved: soundness of checkCert for the abstract VM of MJ/Model/Bal.lean (hand model of the balance-relevant part of vm/mod.rs eval_impl: PushWith/PopFrame/PushLoop/Iterate/PushDidNotIterate/PopLoopFrame/BeginCapture/EndCapture/PushAutoEscape/PopAutoEscape/Jump*/FastRecurse/CallFunction-on-loop/Return/BuildMacro; operand stack not tracked). NOT proved: the code generator — it is covered by translation validation of every real stream (verified checker on the real output of codegen.rs), not by a theorem about codegen.rs; templates outside the enumerated box are covered only in so far as they are compiled and checked (any stream can be checked with `c05 src`). Trusted: harness token mapping of the Instruction enum (exhaustive match, breaks the build on a new instruction), the untrusted certificate inference only proposes (checkCert decides). Model assumptions: a loop object is only called (CallFunction) while its loop is live in the calling activation's own frame stack (passing `loop` into a macro and calling it there is exercised dynamically but not modelled); LoadBlocks' discard capture is popped by the end-of-stream logic and is not counted; nested evaluations (CallBlock, FastSuper, Include, macro calls) are separate activations whose own regions are certified and whose entry/exit depths are compared by the verif_hooks counters; the restore-on-error of the nested-evaluation wrappers is modelled separately (MJ/Model/Nested.lean, hand transcription; hypotheses on the nested body: it only pushes frames on top of / pops its own frames (what checkCert_sound gives), block stacks only grow by LoadBlocks) and exercised dynamically through error-swallowing Rust callbacks (try_call / try_block) with sentinel probes (root variable, with-variable, macro argument, escape mode, template name, current block) and the verif_hooks ExecSnapshot comparison around Macro::call and State::render_block on both outcomes; on the error path of a capturing super() / an instruction-driven CallBlock / Include the shared Output is left with open captures by design of the code (the error always propagates to the owner of that Output: a macro call, render_block or the top-level render, which drops it); a template that includes itself from inside a recursive loop and calls loop() outside that loop's text is outside the model (FastRecurse with no loop in the region is modelled as the error it is in every other situation); compile_has_cert (a theorem about a model of codegen.rs) is NOT provided.",
+    "level_note": "Proved: compile_has_cert / compiled_code_balanced — for every statement tree the parser's in_loop discipline accepts, the Lean model of compile_stmt (MJ/Model/BalGen.lean, jump targets computed from block sizes where the Rust back-patches) emits code + certificate accepted by the verified checker, hence balanced on every path; the model generator is tied to codegen.rs by comparing its output with the REAL instruction stream on every enumerated and sampled shape (equal modulo `other` instructions and jump targets renumbered accordingly; instruction-for-instruction equal on most), any difference is a model disagreement. Proved: soundness of checkCert for the abstract VM of MJ/Model/Bal.lean (hand model of the balance-relevant part of vm/mod.rs eval_impl: PushWith/PopFrame/PushLoop/Iterate/PushDidNotIterate/PopLoopFrame/BeginCapture/EndCapture/PushAutoEscape/PopAutoEscape/Jump*/FastRecurse/CallFunction-on-loop/Return/BuildMacro; operand stack not tracked). The theorem is about the model generator, not about codegen.rs itself: what ties them is the stream comparison on the enumerated box (depth <= 3 / 4 chains over 25 kinds + deeper samples) and, independently, translation validation of every real stream (fixtures included) by the verified checker. Outside the generator model: expressions with internal jumps (and/or, inline if, chained comparisons), macro argument defaults, the Rust back-patching mechanics (PendingBlock bookkeeping is replaced by size computation), spans/line tables. Trusted: harness token mapping of the Instruction enum (exhaustive match, breaks the build on a new instruction), the untrusted certificate inference only proposes (checkCert decides). Model assumptions: a loop object is only re-entered (CallFunction) while its loop is live in the calling activation's own frame stack — enforced by the engine since 08f57de (`is_active_loop`), passing `loop` into a macro and calling it there is an error and exercised as such; LoadBlocks' discard capture is popped by the end-of-stream logic and is not counted; nested evaluations (CallBlock, FastSuper, Include, macro calls) are separate activations whose own regions are certified and whose entry/exit depths are compared by the verif_hooks counters; the restore-on-error of the nested-evaluation wrappers is modelled separately (MJ/Model/Nested.lean, hand transcription; hypotheses on the nested body: it only pushes frames on top of / pops its own frames (what checkCert_sound gives), block stacks only grow by LoadBlocks) and exercised dynamically through error-swallowing Rust callbacks (try_call / try_block) with sentinel probes (root variable, with-variable, macro argument, escape mode, template name, current block) and the verif_hooks ExecSnapshot comparison around Macro::call and State::render_block on both outcomes; on the error path of a capturing super() / an instruction-driven CallBlock / Include the shared Output is left with open captures by design of the code (the error always propagates to the owner of that Output: a macro call, render_block or the top-level render, which drops it); a template that includes itself from inside a recursive loop and calls loop() outside that loop's text is outside the model (FastRecurse with no loop in the region is modelled as the error it is in every other situation); ",
 }
 
 BALANCE_FILES = ("vm/mod.rs", "vm/context.rs", "vm/state.rs", "vm/loop_object.rs", "vm/macro_object.rs", "output.rs",
@@ -61,7 +61,7 @@ def run(r):
         return
     r.exhaustive = True
     static_ok = collections.defaultdict(lambda: True)   # case -> all streams accepted
-    n_streams = n_reject = 0
+    n_streams = n_reject = n_gen_broken = 0
     for dl, vl in zip(dlines, verdicts):
         _, case, stream, cls, toks = dl.split("\t")
         v = vl.split("\t")
@@ -70,6 +70,17 @@ def run(r):
             continue
         verdict = v[2]
         n_streams += 1
+        # model code generator (MJ/Model/BalGen.lean) run on the shape descriptor vs the real stream
+        gm = re.search(r"gen=([A-Za-z-]+)", vl)
+        g = gm.group(1) if gm else "missing"
+        r.hist["model_generator_vs_real_stream"][g] += 1
+        if g == "MISMATCH":
+            r.model_disagreement(case + "/" + stream, "real stream (modulo `other`): " + toks[:300],
+                                 "model generator compiles the shape to a different skeleton")
+        elif g in ("CERT-REJECTED", "unknown-shape", "not-in-fragment", "missing"):
+            n_gen_broken += 1
+            if n_gen_broken <= 3:
+                r.broken.append(f"model generator on {case}/{stream}: {g}")
         tl = toks.split(" ")
         nontrivial = any(t != "o" for t in tl)
         r.count(case + "/" + stream, nontrivial)
@@ -128,6 +139,11 @@ def run(r):
     r.extra["streams_checked"] = n_streams
     r.extra["streams_rejected"] = n_reject
     r.extra["enumeration_depth"] = depth
+    r.extra["stage"] = ("compile_has_cert / compiled_code_balanced proved for the FULL statement fragment (no staging): "
+                        "if/elif/else, for (else, recursive, filtered as accumulation loop + loop), with, set-/filter-block, "
+                        "autoescape, macro, call block, import/from-import, break, continue, loop() recursion, block "
+                        "references, any nesting; outside the fragment: expressions with internal jumps (and/or, inline if, "
+                        "chained comparisons) and macro argument defaults")
     if r.hist["checker"]["ok"] == 0:
         r.broken.append("the checker accepted no stream at all")
 
